@@ -42,7 +42,7 @@ ASSUMPTIONS = ["testers: Pauli / 4 mutually unbiased bases (qutrit) projective P
                "the reference nearest point is accepted only with its KKT certificate (c05.ref_projection)"]
 BOUNDS = {"quick": "Q1: state N<=3, povm m=2 N<=3, m=3 N<=2 (N=2 projected linear only), gate N=1 all 4096 tables (projected linear) + structured, "
                    "mprocess m=2 structured; Q3: state N<=2, povm m=2 N=1, m=3 / gate / mprocess m=2 structured; loss minimisation: full "
-                   "configuration product on N=1 / exact / improper data of Q1 state+povm, reduced products elsewhere; re-use BFS depth 3 over 24 operations",
+                   "configuration product on N=1 / exact / improper data of Q1 state+povm, reduced products elsewhere; re-use BFS depth 3 over 18 operations",
           "thorough": "adds Q2 (two qubits, fast losses), Q1 state N<=5, povm m=2 N<=4, mprocess m=3, Q3 wider structured ranges, "
                       "full configuration product on all Q1 types, re-use BFS depth 4"}
 EXHAUSTIVE = {"quick": True, "thorough": True}
@@ -186,7 +186,7 @@ def lossmin_plan(tier):
 
 
 REUSE_QTS = (("state", "Q1", None, True), ("povm", "Q1", 2, True), ("state", "Q1", None, False))
-REUSE_LM = (("pgdb", "se_fast", "eq_ineq"), ("fista", "re_fast", "ineq_eq"), ("pgdb", "re_fast", "eq_ineq"))
+REUSE_LM = (("pgdb", "se_fast", "eq_ineq"), ("fista", "re_fast", "ineq_eq"))
 
 
 def reuse_menu():
